@@ -78,16 +78,17 @@ def same(field, a, b):
     return a == b
 
 
-def root_molecule(workdir, shape):
+def root_molecule(workdir, shape, same_name=False):
     n = sum(shape)
     names = ['C%d' % (i + 1) for i in range(n)]
     residues = []
     for k, sz in enumerate(shape):
-        residues += [('R%d' % (k + 1), k + 1)] * sz
+        # same_name: a repeated monomer - consecutive residues with one residue name, told apart by their number only
+        residues += [('MON' if same_name else 'R%d' % (k + 1), k + 1)] * sz
     bonds = [(i, i + 1) for i in range(1, n)]
     os.makedirs(workdir, exist_ok=True)
-    itp = os.path.join(workdir, 'root%d.itp' % len(shape))
-    gro = os.path.join(workdir, 'root%d.gro' % len(shape))
+    itp = os.path.join(workdir, 'root%d%s.itp' % (len(shape), 's' if same_name else ''))
+    gro = os.path.join(workdir, 'root%d%s.gro' % (len(shape), 's' if same_name else ''))
     if not os.path.exists(itp):
         synth.write_itp(itp, 'ROOT', [(an, r[0], r[1]) for an, r in zip(names, residues)], bonds)
         synth.write_gro(gro, [(r[1], r[0], an, i + 1, (0.1 * i, 0.2, 0.3), (0.01 * i, 0.0, -0.02))
@@ -125,7 +126,7 @@ def replay(beh, workdir, seed, stats):
     from gaddlemaps import Alignment
     rng = np.random.default_rng(seed)
     shape = beh['objs'][0]['shape']
-    syst, root = root_molecule(workdir, shape)
+    syst, root = root_molecule(workdir, shape, same_name=(len(shape) > 1 and seed % 2 == 1))
     sobjs = beh['objs']
     if any(h['op'] == 'write' and h['f'] == 'nam' and sobjs[h['o'] - 1]['fam'] == 1 for h in beh['hist']):
         # the molecule a System hands out shares its topology with the System (a plain copy): names are
@@ -233,6 +234,8 @@ def replay(beh, workdir, seed, stats):
                         starts += [acc] * sz
                         acc += sz
                     toks = [toks[starts[a]] for a in range(n)]
+                    if (seed + step) % 3 == 0:
+                        toks = [toks[0]] * n          # one number for every residue (the single-integer form, a repeated list)
                 vals = [val_of(f, t) for t in toks]
                 if f == 'pos' and (seed + step) % 4 == 0:
                     # coordinates handed over as an integer array (lattice positions): they are coordinates like any other,
@@ -261,7 +264,7 @@ def replay(beh, workdir, seed, stats):
                             for sz in so['shape']:
                                 per_res.append(vals[acc])
                                 acc += sz
-                            ro.resids = per_res if (len(per_res) > 1 or (seed + step) % 2) else per_res[0]
+                            ro.resids = per_res if ((len(per_res) > 1 and len(set(per_res)) > 1) or (seed + step) % 2) else per_res[0]
                         else:
                             ro.resid = vals[0]
                     else:
